@@ -132,7 +132,10 @@ def run(tier, seed, replay=None):
         except BaseException:  # noqa
             continue
         stats["specs"] += 1
-        sample = vals if len(vals) <= 2 else rng.sample(vals, 14 if tier == "quick" else 40) + EXTREME_NUMS[:6]
+        sample = vals if len(vals) <= 2 else rng.sample(vals, 14 if tier == "quick" else 40) + EXTREME_NUMS[:6] + ["", " ", "\n", "-", "T"]
+        if len(vals) > 2 and '"format"' in json.dumps(doc, default=repr):
+            # a format checker sees every string, wherever it sits
+            sample = sample + EXTREME_STRS + [[s] for s in EXTREME_STRS[:6]] + [{"a": s} for s in EXTREME_STRS[:6]] + [{s: 1} for s in EXTREME_STRS[:6]]
         r = repr(root)[:300]
         small = []
         for v in sample:
@@ -181,6 +184,28 @@ def run(tier, seed, replay=None):
             schemas.append({"type": "number", "multipleOf": m, "minimum": -m, "maximum": m})
     elif "schema" in json.load(open(replay)):
         schemas = [json.load(open(replay))["schema"]]
+    # ---- acyclic schemas nested far beyond the interpreter's recursion budget: refused with the schema-parse family, through every position
+    def nest(pos, n):
+        s = {"type": "string"}
+        for _ in range(n):
+            s = {"items": s} if pos == "items" else {"items": [{"type": "null"}, s]} if pos == "tuple" else {"additionalProperties": s} if pos == "additionalProperties" \
+                else {"not": s} if pos == "not" else {"anyOf": [s, {"type": "null"}]} if pos == "anyOf" else {"dependencies": {"a": s}} if pos == "dependencies" \
+                else {"properties": {"p": s}} if pos == "properties" else {"type": "object", "title": "T", "properties": {"p": s}}
+        return s
+    for pos in ([] if replay else ["items", "tuple", "additionalProperties", "not", "anyOf", "dependencies", "properties", "class"]):
+        for n in (3000, 1200):
+            stats["parses"] += 1
+            stats["beyond_budget_parses"] = stats.get("beyond_budget_parses", 0) + 1
+            res.count("parse-deep:%s:%d" % (pos, n), nontrivial=True)
+            try:
+                with common.time_limit(120):
+                    parse_element(nest(pos, n))
+                stats["parse_ok"] += 1
+            except SchemaParseError:
+                stats["parse_refused"] += 1
+            except BaseException as exc:  # noqa
+                res.violation({"property": "C10", "kind": "oracle-parse", "schema": "%d levels of %s around {'type': 'string'}" % (n, pos),
+                               "what": "parse_element raised %s on an acyclic schema nested %d deep: not an error of the schema-parse family" % (type(exc).__name__, n)})
     for s in schemas:
         stats["parses"] += 1
         res.count("parse:" + json.dumps(s, sort_keys=True, default=repr)[:500], nontrivial=True)
